@@ -46,6 +46,9 @@ def run(prog, res):
   _mirror_results(prog, res)
   _squeeze_clips(prog, res)
   res.floor('K3s', 2)
+  guards.check_self_clip_order(prog, res, [
+      f for f in prog.module('pwl_calibration_lib').all_functions()])
+  res.floor('X5', 10)
   affine_rules.check_pwl_bounds(prog, res)
   res.floor('L2', 16)
   fn = prog.function(PL + '.project_all_constraints')
